@@ -548,7 +548,16 @@ def _full(ctx):
     """the whole get_all_tokenizers() list: a test over all 5,878,656 configurations (not a theorem)"""
     mt, at, utils = _mods()
     toks = at.get_all_tokenizers()
+    n0 = len(toks)
+    # the library's own consumers of the enumeration (the test sampler) run in between: the enumeration must still be the same afterwards
+    try:
+        at.sample_tokenizers_for_test(3); at.sample_tokenizers_for_test(None) if False else None
+    except Exception as e:
+        ctx.notes.append(f"sample_tokenizers_for_test raised {type(e).__name__}")
+    toks = at.get_all_tokenizers()
     n = len(toks)
+    if n != n0:
+        ctx.violate(f"get_all_tokenizers() returned {n0} tokenizers, and {n} after sample_tokenizers_for_test(3) had been called in between", dict(kind="size-full", n=n, before=n0)); return
     ctx.case(dict(full=n)); ctx.count("full-enumeration")
     ctx.extra["full_enumeration_count"] = n
     if n != EXPECTED_TOTAL:
@@ -649,6 +658,12 @@ def search(ctx):
         _check_tokenizer(ctx, t, dict(error="search"), legacy_keys, "search")
         ctx.disagreements.clear()
         if ctx.violations: return
+    # nothing found on samples: the whole enumeration (all 5,878,656 real objects: count, names, hashes, legacy images) — minutes, several GB
+    try:
+        _full(ctx)
+    except MemoryError:
+        ctx.notes.append("full enumeration skipped: not enough memory")
+    ctx.disagreements.clear()
 
 
 def replay(ctx, rp):
